@@ -115,7 +115,7 @@ func runC20(c *Ctx) {
 		bed  BedOpts
 	}
 	cfgs := []cfg{
-		{"e2e-quarantine", BedOpts{UdpRcvBuf: 8 << 20, MemSize: 48 * 1024, Env: map[string]string{"VERIF_POINTS": "memcache.get=sleep(300us,25.0%)"}}},
+		{"e2e-quarantine", BedOpts{UdpRcvBuf: 8 << 20, MemSize: 48 * 1024, Env: map[string]string{"VERIF_POINTS": "memcache.get=sleep(300us,25.0%);pool.get.large=sleep(2ms,3.0%)"}}},
 		{"e2e-recycle", BedOpts{UdpRcvBuf: 8 << 20, MemSize: 48 * 1024, Env: map[string]string{"VERIF_POOL_QUARANTINE": "0", "VERIF_POINTS": "memcache.get=sleep(200us,10.0%)"}}},
 	}
 	reps := c.N(2, 6)
@@ -198,6 +198,8 @@ func runC20(c *Ctx) {
 		races := racelog.ParseFiles(filepath.Join(dir, "race.*"))
 		c20ReportSanitizers(c, "transports", races, readLinesFile(filepath.Join(dir, "pool.log")), readLinesFile(filepath.Join(dir, "hook.log")))
 	}
+	// ---- (C) in-process cache: large values overwritten while readers are delayed between lookup and copy
+	c07Stress(c)
 	c.Ev.Sample(map[string]any{"workload": "e2e-quarantine", "listeners": allListeners, "abandon_probability": 0.08, "cache_bytes": 48 * 1024, "delay_point": "memcache.get=sleep(300us,25%)"})
 	c.Ev.Sample(map[string]any{"workload": "transports", "deadline_ms": "0-2.5", "server_delay_ms": "0-3", "schemes": c20Schemes})
 	_ = proxyproc.FreePorts
